@@ -77,6 +77,7 @@ func (c06) Run(c core.Case, w *core.Worker) core.Result {
 	io.Track = dir
 	r := core.NewRng(c.Seed)
 	s := core.NewSession(dir, cc.Cfg, &res)
+	s.Spell = c.Index%2 == 1
 	s.IO = io
 	s.Extra = map[string]string{"mode": cc.Mode, "variant": cc.Var}
 	keys := core.GenKeys(r, r.Range(4, 10))
